@@ -300,6 +300,40 @@ def rule_ag1(ctx: Ctx) -> RuleResult:
                                         "%s is documented as accepting both an Observable and a MuxObservable, but %s" % (fn.name, msg)))
         else:
             r.ob(True)
+        # both arms of a dispatch on  isinstance(source, MuxObservable)  work on that source
+        for d in dispatch_sites(prog, m, fn):
+            if d.form not in ("if", "ifexp"):
+                continue
+            tst = _dispatch_test(d.node, _single_assignments(m, d.node))
+            subj = tst.args[0] if tst is not None else None
+            if not isinstance(subj, ast.Name):
+                continue
+            for which, nodes in (("mux", d.mux_nodes), ("plain", d.plain_nodes)):
+                stmts = [s for s in nodes if isinstance(s, ast.AST)]
+                if d.form == "if" and not any(isinstance(x, ast.Return) for s in stmts for x in ast.walk(s)):
+                    continue          # the arm only selects an implementation; the application is elsewhere
+                if d.form == "ifexp":
+                    # op = A() if isinstance(source, Mux) else B(): the application follows the selection
+                    continue
+                names = {subj.id}
+                # a subscribe function defined next to the dispatch that closes over the source stands for it: rx.create(on_subscribe)
+                encl = m.enclosing_function(d.node)
+                if encl is not None:
+                    for g in ast.walk(encl):
+                        if isinstance(g, ast.FunctionDef) and g is not encl and any(
+                                isinstance(y, ast.Name) and y.id == subj.id and isinstance(y.ctx, ast.Load) for y in ast.walk(g)):
+                            names.add(g.name)
+                for s in stmts:
+                    for x in ast.walk(s):
+                        if isinstance(x, ast.Assign) and any(isinstance(y, ast.Name) and y.id in names for y in ast.walk(x.value)):
+                            names |= {tg.id for tg in x.targets if isinstance(tg, ast.Name)}
+                rets = [x for s in stmts for x in ast.walk(s) if isinstance(x, ast.Return)]
+                for rt in rets:
+                    uses = rt.value is not None and any(isinstance(y, ast.Name) and y.id in names for y in ast.walk(rt.value))
+                    r.ob(uses, lambda rt=rt, which=which, subj=subj: Finding(
+                        "AG-1", "%s::%s{%s-arm-source}" % (m.relpath, fn.name, which), m.where(rt),
+                        "the %s arm of %s returns '%s', which does not mention %s: the arm was selected for this source and must apply its "
+                        "implementation to it" % (which, fn.name, ast.unparse(rt.value)[:60] if rt.value is not None else None, subj.id)))
         # an operator that neither dispatches nor delegates is not dual
         has_dispatch = bool(dispatch_sites(prog, m, fn))
         delegates = any(isinstance(n, ast.Call) and _resolves_to_rxsci_operator(prog, m, n) for n in ast.walk(fn))
